@@ -164,30 +164,34 @@ def Teddy.verify (t : Teddy) (hay : PBytes) (base : Nat) (cand : List Nat) : Opt
           else none
       else none
 
-/-- the main loop `while cur <= end - W`; `hay` is `haystack[..end]` -/
+/-- the main loop `while cur <= end - W`; `hay` is `haystack[..end]`.  Also
+returns the positions `cur` at which a `w`-byte vector was loaded (C15). -/
 def Teddy.mainLoop (t : Teddy) (hay : PBytes) (w : Nat) :
-    Nat → Nat → List (List Nat) → Option Mat × Nat
-  | 0, cur, _ => (none, cur)
-  | fuel + 1, cur, prevs =>
+    Nat → Nat → List (List Nat) → List Nat → Option Mat × Nat × List Nat
+  | 0, cur, _, loads => (none, cur, loads)
+  | fuel + 1, cur, prevs, loads =>
     if cur + w ≤ hay.length then
       let (cand, prevs') := t.candidate ((hay.drop cur).take w) prevs
       match (if cand.all (· == 0) then none else t.verify hay (cur - (t.maskLen - 1)) cand) with
-      | some m => (some m, cur)
-      | none => t.mainLoop hay w fuel (cur + w) prevs'
-    else (none, cur)
+      | some m => (some m, cur, loads ++ [cur])
+      | none => t.mainLoop hay w fuel (cur + w) prevs' (loads ++ [cur])
+    else (none, cur, loads)
 
-/-- `Slim<V, N>::find` / `Fat<V, N>::find` with window width `w` -/
-def Teddy.find (t : Teddy) (hay : PBytes) (start : Nat) (w : Nat) : Option Mat :=
+/-- `Slim<V, N>::find` / `Fat<V, N>::find` with window width `w`, with the list of load positions -/
+def Teddy.findT (t : Teddy) (hay : PBytes) (start : Nat) (w : Nat) : Option Mat × List Nat :=
   let n := t.maskLen
   let init := List.replicate (n - 1) (allOnes t.nBuckets w)
-  match t.mainLoop hay w (hay.length / w + 2) (start + (n - 1)) init with
-  | (some m, _) => some m
-  | (none, cur) =>
+  match t.mainLoop hay w (hay.length / w + 2) (start + (n - 1)) init [] with
+  | (some m, _, loads) => (some m, loads)
+  | (none, cur, loads) =>
     if cur < hay.length then
       let cur := hay.length - w
       let (cand, _) := t.candidate ((hay.drop cur).take w) init
-      if cand.all (· == 0) then none else t.verify hay (cur - (n - 1)) cand
-    else none
+      (if cand.all (· == 0) then none else t.verify hay (cur - (n - 1)) cand, loads ++ [cur])
+    else (none, loads)
+
+def Teddy.find (t : Teddy) (hay : PBytes) (start : Nat) (w : Nat) : Option Mat :=
+  (t.findT hay start w).1
 
 /-- the Teddy variants `teddy::Builder` can select on x86_64 -/
 inductive TeddyVariant where
